@@ -99,7 +99,11 @@ def gen_case(seed, tier):
             continue
         seen.add((nm, num))
         resources.append(dict(_gen_ios(cfg, pool, conns, 0, 0.5), name=nm, number=num))
-    config = {"family": family, "connectors": conns, "resources": resources}
+    config = {"family": family, "connectors": conns, "resources": resources, "default_clk": None}
+    cands = [r for r in resources if r["number"] == 0 and "pins" in r and len(r["pins"]) == 1 and r["dir"] == "i"]
+    if cands and cfg.random() < 0.4:
+        # the platform requests this resource itself (create_missing_domain) when the design uses an undeclared `sync` domain
+        config["default_clk"] = cfg.choice(cands)["name"]
     ops = []
     nops = wl.randint(2, 12) if tier == "quick" else wl.randint(2, 25)
     for _ in range(nops):
@@ -120,6 +124,8 @@ def gen_case(seed, tier):
             res = wl.choice(resources) if resources else {"name": "ra", "number": 0}
             op = {"op": "request", "name": res["name"], "number": res["number"], "dir": "-", "xdr": None}
         ops.append(op)
+    if config["default_clk"] and fl.random() < 0.7:
+        ops = [op for op in ops if op["name"] != config["default_clk"]] or ops[:1]
     return {"config": config, "steps": ops, "use_frac": wl.choice([1.0, 1.0, 0.6, 0.3]), "use_seed": wl.randrange(1 << 30)}
 
 
@@ -160,7 +166,7 @@ def make_platform(config):
         class Plat(vendor.LatticeICE40Platform):
             device = "iCE40HX8K"
             package = "CT256"
-            default_clk = None
+            default_clk = config.get("default_clk")
             resources = res
             connectors = con
         return Plat(), ".pcf"
@@ -169,14 +175,14 @@ def make_platform(config):
             device = "LFE5U-25F"
             package = "BG381"
             speed = "6"
-            default_clk = None
+            default_clk = config.get("default_clk")
             resources = res
             connectors = con
         return Plat(toolchain="Trellis"), ".lpf"
     class Plat(vendor.GowinPlatform):
         part = "GW1NR-LV9QN88PC6/I5"
         family = "GW1NR-9C"
-        default_clk = None
+        default_clk = config.get("default_clk")
         resources = res
         connectors = con
     return Plat(toolchain="Apicula"), ".cst"
@@ -418,11 +424,38 @@ def run_history(config, ops, use_frac, use_seed, stats=None, record=None):
                 (expect_clk if is_used else optional_loc)[("clk", cport) if not is_used else cport] = node["clock_mhz"] * 1e6
             if is_used:
                 used.append(pname)
+    build_should_fail = None
+    if config.get("default_clk"):
+        cnt = Signal(4, name="cnt")
+        m.d.sync += cnt.eq(cnt + 1)
+        sink.append(cnt)
+        dop = {"op": "request", "name": config["default_clk"], "number": 0, "dir": "-", "xdr": None}
+        exp, info = model_request(config, state, dop)
+        if exp == "ok":
+            for (path, node, p, n, hops) in info:
+                pname = "__".join(path)
+                expect_loc[pname + "__io"] = p[0]
+                if node["clock_mhz"]:
+                    expect_clk[pname + "__io"] = node["clock_mhz"] * 1e6
+            if stats is not None:
+                stats["probes"]["default_clk_requested_by_platform"] = stats["probes"].get("default_clk_requested_by_platform", 0) + 1
+        else:
+            build_should_fail = info
     out = Signal(name="sink_out")
     if sink:
         m.d.comb += out.eq(Cat(*sink).xor())
     with warnings.catch_warnings():
         warnings.simplefilter("ignore")
+        if build_should_fail is not None:
+            try:
+                plat.build(m, do_build=False)
+            except ResourceError:
+                if stats is not None:
+                    stats["faults"]["refuse"] += 1
+                    stats["probes"]["default_clk_refused_at_build"] = stats["probes"].get("default_clk_refused_at_build", 0) + 1
+                return outcomes + ["build:ResourceError"], "", []
+            raise Violation("illegal_request_granted", len(ops), {"op": "platform default_clk request at build",
+                                                                  "expected_refusal": build_should_fail})
         plan = plat.build(m, do_build=False)
     text = next((v for k, v in plan.files.items() if k.endswith(ext)), None)
     if text is None:
@@ -487,13 +520,17 @@ def run_case(case):
     def go():
         outcomes, text, ports = run_history(config, case["steps"], case["use_frac"], case["use_seed"], stats)
         dig.add((outcomes, text))
-        if any(o != "ok" for o in outcomes):
+        build1 = outcomes[len(case["steps"]):]
+        req1 = outcomes[:len(case["steps"])]
+        if any(o != "ok" for o in req1):
             # metamorphic atomicity oracle: the same history with the refused operations deleted
-            kept = [op for op, o in zip(case["steps"], outcomes) if o == "ok"]
+            kept = [op for op, o in zip(case["steps"], req1) if o == "ok"]
             o2, text2, ports2 = run_history(config, kept, case["use_frac"], case["use_seed"])
             stats["probes"]["metamorphic_compared"] += 1
-            if any(o != "ok" for o in o2):
+            if any(o != "ok" for o in o2[:len(kept)]):
                 raise Violation("atomicity_outcomes", -1, {"outcomes_without_refused_ops": o2})
+            if o2[len(kept):] != build1:
+                raise Violation("atomicity_build_outcome", -1, {"with_refusals": build1, "without": o2[len(kept):]})
             if text2 != text:
                 a, b = text.splitlines(), text2.splitlines()
                 diff = [l for l in a if l not in b][:4] + ["--"] + [l for l in b if l not in a][:4]
